@@ -19,6 +19,22 @@ func genC32(seed uint64) *Plan {
 			a.Ops = append(a.Ops, Op{Kind: "init", A: int64(i), S: kd})
 		}
 	}
+	if kinds[0] == "txn" && kinds[1] == "txn" && g.pct(40) {
+		// nested transactions of two producers on one partition, the outer
+		// one ending last, both ending either way; then bounded
+		// read_committed fetches from the start
+		q := g.rng(0, nparts-1)
+		a.Ops = append(a.Ops, Op{Kind: "init", A: 0, S: "txn"}, Op{Kind: "init", A: 1, S: "txn"},
+			Op{Kind: "addparts", A: 0, B: q}, Op{Kind: "produce", A: 0, B: q, C: g.rng(1, 3)},
+			Op{Kind: "addparts", A: 1, B: q}, Op{Kind: "produce", A: 1, B: q, C: g.rng(1, 3)},
+			Op{Kind: "endtxn", A: 1, B: g.rng(0, 1)},
+			Op{Kind: "produce", A: 0, B: q, C: g.rng(1, 3)},
+			Op{Kind: "endtxn", A: 0, B: g.rng(0, 1)},
+			Op{Kind: "produce", A: -1, B: q, C: 1})
+		for i := 0; i < 3; i++ {
+			a.Ops = append(a.Ops, Op{Kind: "fetch", A: -1, B: q, C: g.pick(0, 0, 20, 50), D: 1 + 2*g.pick(0, 1, 1, 2)})
+		}
+	}
 	n := int(g.rng(20, 140))
 	for i := 0; i < n; i++ {
 		switch x := g.R.Intn(100); {
@@ -50,7 +66,7 @@ func genC32(seed uint64) *Plan {
 		case x < 76:
 			a.Ops = append(a.Ops, Op{Kind: "listoffsets", A: g.pick(-1, -1, -2), B: g.rng(0, nparts-1), D: g.rng(0, 1)})
 		case x < 96:
-			op := Op{Kind: "fetch", A: g.rng(-1, 1), B: g.rng(0, nparts-1), D: g.rng(0, 1)}
+			op := Op{Kind: "fetch", A: g.rng(-1, 1), B: g.rng(0, nparts-1), D: g.rng(0, 1) + 2*g.pick(0, 0, 0, 1, 1, 2)}
 			if op.A < 0 {
 				op.C = g.pick(-5, 0, 0, 20, 50, 80, 100, 100, 120)
 			} else if g.pct(8) {
